@@ -42,6 +42,7 @@ type GenSpec struct {
 	BigDelegators int   // number of delegators of candidate 0 (slot tests)
 	Orders        int   // open orders per order-carrying pool
 	NoUSDT        bool
+	Recovering    int // > 0: the genesis price record is in the recovery phase (Off), k = Recovering-1 updates of +10 BIP short of the price-derived reward
 	Emission      string
 	Versions      []types.Version
 }
@@ -463,6 +464,14 @@ func BuildGenesis(spec GenSpec, r *rand.Rand) (*types.AppState, *World) {
 	for _, p := range g.pools {
 		if p.Coin0 == 0 && p.Coin1 == CoinUSDT {
 			g.st.PrevReward.AmountBIP, g.st.PrevReward.AmountUSDT = p.Reserve0, p.Reserve1
+			if spec.Recovering > 0 {
+				// validators' share k*10+3 BIP below the price-derived level: recovery completes at the (k+1)-th update without a new drop
+				last := new(big.Int).Sub(priceReward(BI(p.Reserve0), BI(p.Reserve1)), Bip(int64(10*(spec.Recovering-1)+3)))
+				if last.Sign() < 0 {
+					last.SetInt64(0)
+				}
+				g.st.PrevReward.Reward, g.st.PrevReward.Off = last.String(), true
+			}
 		}
 	}
 	return &g.st, w
